@@ -674,6 +674,107 @@ def r09i(ctx, run):
                   "the written value is truncated (%s)" % (kind, kind, example))
 
 
+def r09l(ctx, run):
+    """the final re-inference pass decides a still-weak literal by its value alone: the IntLiteral arm of reinfer_expr's per-kind table is evaluated for
+    both weak types and values around 2^31 / 2^32 / 2^63, under every answer to any question it asks about other state (an unknown condition is explored
+    both ways).  Beyond what the code generator's type for weak ints can hold (R09.d: i32) every outcome must give the literal a 64-bit type; at or
+    below it the literal is left alone."""
+    from absint import Interp, Obj, Term, Variant, Panic, CannotEstablish
+    fn = ctx.syn.fn("GlobalInferenceCtx::reinfer_expr", "hir_ty/src/globals.rs")
+    arms = []
+    for m in synq.matches_on(fn.body):
+        tab = synq.match_table(m)
+        heads = {synq.last_seg(h) for h, p_, g, b, a in tab if h and h.startswith("Expr::")}
+        if "IntLiteral" in heads and len(heads) >= 6:
+            arms += [(p_, b, a) for h, p_, g, b, a in tab if h and synq.last_seg(h) == "IntLiteral"]
+    if len(arms) != 1:
+        raise LookupError("the IntLiteral arm of reinfer_expr's per-kind table: %d candidates" % len(arms))
+    pat, body, arm = arms[0]
+    binder = [x for x in walk(pat) if x.get("k") == "p_ident"]
+    if len(binder) != 1:
+        raise LookupError("the IntLiteral arm binds %d names" % len(binder))
+    num_name = binder[0]["n"]
+
+    class Skip(Exception):
+        pass
+
+    class LI(Interp):
+        def __init__(self, decisions):
+            super().__init__(consts={"i32::MAX": 2**31 - 1, "u32::MAX": 2**32 - 1, "i64::MAX": 2**63 - 1, "u64::MAX": 2**64 - 1, "u8::MAX": 255})
+            self.decisions, self.asked = list(decisions), []
+
+        def truth(self, v, what):
+            if isinstance(v, bool):
+                return v
+            self.asked.append(what)
+            if len(self.asked) <= len(self.decisions):
+                return self.decisions[len(self.asked) - 1]
+            raise NeedDecision()
+
+        def eval(self, e, env):
+            k = e.get("k")
+            if k == "continue":
+                raise Skip()
+            if k == "cast":
+                return self.eval(e["e"], env)
+            if k in ("ref",) or (k == "un" and e.get("op") in ("*", "&")):
+                return self.eval(e["e"], env)
+            if k == "path" and e["p"] == "self":
+                return Term("self")
+            if k == "field":
+                b = self.eval(e["e"], env)
+                if isinstance(b, Term):
+                    return Term("state", b, e["m"])
+            return super().eval(e, env)
+
+        def default_method(self, recv, m, args, e):
+            if m == "into" and isinstance(recv, Variant):
+                return recv
+            if isinstance(recv, Term):
+                return Term("state", recv, m)
+            return super().default_method(recv, m, args, e)
+
+    class NeedDecision(Exception):
+        pass
+
+    def outcomes(prev, num):
+        out, todo = [], [[]]
+        while todo:
+            d = todo.pop()
+            it = LI(d)
+            try:
+                r = it.eval(body, {num_name: num, "previous_ty": prev, "expr": Term("expr")})
+                out.append((list(zip(it.asked, d)), r))
+            except Skip:
+                out.append((list(zip(it.asked, d)), "unchanged"))
+            except NeedDecision:
+                if len(d) >= 6:
+                    raise CannotEstablish("more than 6 undecided conditions")
+                todo += [d + [True], d + [False]]
+        return out
+    weak_max = 2**31 - 1     # R09.d establishes that the code generator gives weak ints an i32
+    for prev, fam in ((Variant("Ty::IInt", {"0": 0}), "IInt"), (Variant("Ty::UInt", {"0": 0}), "UInt")):
+        for num in (0, 2**31 - 1, 2**31, 3000000000, 2**32 - 1, 2**32, 2**63, 2**64 - 1):
+            key = "weak-literal:%s:%d" % ("{int}" if fam == "IInt" else "{uint}", num)
+            try:
+                outs = outcomes(prev, num)
+            except (Panic, CannotEstablish) as c:
+                run.finding(fn.qual, key, fn.file, arm["ln"], "cannot establish what the final pass does with the literal %d of type %s: %s" % (num, key.split(":")[1], getattr(c, "what", c)))
+                continue
+            bad = []
+            for asked, r in outs:
+                if num > weak_max:
+                    good = isinstance(r, Variant) and r.last == fam and r.payload.get("0") in (64, 128)
+                else:
+                    good = r == "unchanged"
+                if not good:
+                    bad.append("%s -> %s" % (" and ".join("%s is %s" % (w, str(a).lower()) for w, a in asked) or "always", r))
+            run.check(not bad, fn.site(arm["ln"]), "%s literal %d: %s under %d outcome(s)" % (key.split(":")[1], num, "widened to 64 bits" if num > weak_max else "left alone", len(outs)),
+                      fn.qual, key, fn.file, arm["ln"],
+                      "a literal %d that is still %s in the final pass %s, but [%s]: the code generator gives a weak integer an i32, so the written value would not be kept"
+                      % (num, key.split(":")[1], "must get a 64-bit type of its family" if num > weak_max else "fits an i32 and must be left alone", "; ".join(bad)))
+
+
 def r09k(ctx, run):
     """inference of a body is resumable: infer_expr returns early when it meets a global that is not inferred yet and a NEW GlobalInferenceCtx runs it
     again; statements finished in an earlier run are skipped through the set `inferred_stmts`, which outlives the runs.  A table of the context that is
@@ -762,6 +863,7 @@ def rules(ctx):
         Rule("R09.g", "weak-type replacement retypes only expressions whose value is made at that type; index/member expressions keep the type of the memory they read", 5, r09g),
         Rule("R09.h", "a weak local that is assigned a sized value takes the value's type (plain-assignment arm of reinfer_usages evaluated)", 4, r09h),
         Rule("R09.i", "re-inference carries a widened literal's type up through every form whose type follows its parts", 8, r09i),
+        Rule("R09.l", "the final pass widens a still-weak literal by its value alone: IntLiteral arm of reinfer_expr evaluated under every answer to its questions about other state", 16, r09l),
         Rule("R09.k", "tables filled while a statement is inferred survive the interruptions of the body's inference (or are filled for skipped statements too)", 1, r09k),
         Rule("R09.f", "code generation materialises the written value: iconst/fNNconst/data object built from n without sign extension or truncation; constant data at the type's width", 20, r09f),
         Rule("R09.d", "weak literal widening thresholds do not exceed the maximum of the type codegen gives weak ints", 6, r09d),
